@@ -150,7 +150,7 @@ theorem elems_end_to_end (g : Globals) (hg : g.dialect = .mysql) (rc : Bool)
     executed on what the DROP COLUMN statements leave of the old index list (`prune dc`), they are well-formed at every
     step and give the new index list up to order — unless an index is redefined under its name while every column of its
     old definition is dropped (the recorded finding `index-redefined-old-columns-dropped`). -/
-theorem indexes_with_drops_end_to_end (g : Globals) (hg : g.dialect = .mysql) (hio : g.ignoreOrder = false) (rc : Bool)
+theorem indexes_with_drops_end_to_end' (g : Globals) (hg : g.dialect = .mysql) (hio : g.ignoreOrder = false) (rc : Bool)
     (old new : List Stmt) (dbO dbN : DB) (ho : old.all Stmt.elemSafe = true) (hn : new.all Stmt.elemSafe = true)
     (heo : execAll rc [] old = some dbO) (hen : execAll rc [] new = some dbN)
     (d : Migration) (hd : loadAndDiff g old new = .ok d)
@@ -161,7 +161,9 @@ theorem indexes_with_drops_end_to_end (g : Globals) (hg : g.dialect = .mysql) (h
         (∀ c ∈ dc, c ∉ tbN.colNames) ∧
         ss.filterMap idxStmt = Abs.Idx.emitSup dc tbN.idxs tbO.idxs ∧
         ((∀ s ∈ tbN.idxs, ∀ o ∈ tbO.idxs, o.name = s.name → o ≠ s → ∃ c ∈ o.cols, c ∉ dc) →
-          ∃ R, Abs.Idx.execAll (Abs.Idx.prune dc tbO.idxs) (ss.filterMap idxStmt) = some R ∧ R.Perm tbN.idxs) := by
+          ∃ R, Abs.Idx.execAll (Abs.Idx.prune dc tbO.idxs) (ss.filterMap idxStmt) = some R ∧ R.Perm tbN.idxs) ∧
+        cs = (Table.walkCols g t true [] td.cols).1 ∧ dc = (Table.walkCols g t true [] td.cols).2 ∧
+        (∀ s ∈ ss, s.table = t ∧ ((∃ cols, s = .addPrimaryKey t cols) ∨ s = .dropPrimaryKey t ∨ (idxStmt s).isSome = true)) := by
   have hoc : old.all Stmt.colSafe = true :=
     List.all_eq_true.mpr (fun s hs => Stmt.colSafe_of_elemSafe s (List.all_eq_true.mp ho s hs))
   have hnc : new.all Stmt.colSafe = true :=
@@ -275,8 +277,16 @@ theorem indexes_with_drops_end_to_end (g : Globals) (hg : g.dialect = .mysql) (h
   have hwfO : tbO.WF := execAll_wf rc old [] dbO hoc wf_empty heo tbO (mem_of_find hfo)
   obtain ⟨ss, hw, hproj⟩ := Table.walkIdx_refines_sup g t (Table.walkCols g t true [] td.cols).2 tn ot hlin hlio
   rw [hvin, hvio] at hproj
+  have hshape : ∀ s ∈ ss, s.table = t ∧ ((∃ cols, s = .addPrimaryKey t cols) ∨ s = .dropPrimaryKey t ∨ (idxStmt s).isSome = true) := by
+    have hw2 := Table.walkIdx_sup_eq g t (Table.walkCols g t true [] td.cols).2 tn ot hlin hlio _ rfl
+    rw [hw] at hw2
+    have hss := Except.ok.inj hw2
+    intro s hs
+    rw [hss] at hs
+    obtain ⟨i, _, hi⟩ := List.mem_flatMap.mp hs
+    exact Table.supStmts_shape _ t i s hi
   refine ⟨td, htd_mem, hname, hact, (Table.walkCols g t true [] td.cols).1, (Table.walkCols g t true [] td.cols).2, ss,
-    ?_, ?_, hdcN, hproj, ?_⟩
+    ?_, ?_, hdcN, hproj, ?_, rfl, rfl, hshape⟩
   · unfold Table.migrationColumnUp
     rw [hact, hname]
     rfl
@@ -288,5 +298,22 @@ theorem indexes_with_drops_end_to_end (g : Globals) (hg : g.dialect = .mysql) (h
     refine Abs.Idx.emitSup_correct _ tbN.idxs tbO.idxs hNn hOn ?_ (fun o ho' => (hwfO o ho').1) hredef
     intro s hs c hc hcd
     exact hdcN c hcd ((hwfN s hs).2 c hc)
+
+
+theorem indexes_with_drops_end_to_end (g : Globals) (hg : g.dialect = .mysql) (hio : g.ignoreOrder = false) (rc : Bool)
+    (old new : List Stmt) (dbO dbN : DB) (ho : old.all Stmt.elemSafe = true) (hn : new.all Stmt.elemSafe = true)
+    (heo : execAll rc [] old = some dbO) (hen : execAll rc [] new = some dbN)
+    (d : Migration) (hd : loadAndDiff g old new = .ok d)
+    (t : String) (tbO tbN : TableSpec) (hfo : dbO.find t = some tbO) (hfn : dbN.find t = some tbN)
+    (hne : ∀ n ∈ tbN.colNames ++ tbO.colNames, n ≠ "") :
+    ∃ td ∈ d.tables, td.name = t ∧ td.action = .none ∧
+      ∃ cs dc ss, td.migrationColumnUp g = .ok (cs, dc) ∧ td.migrationIndexUp g dc = .ok ss ∧
+        (∀ c ∈ dc, c ∉ tbN.colNames) ∧
+        ss.filterMap idxStmt = Abs.Idx.emitSup dc tbN.idxs tbO.idxs ∧
+        ((∀ s ∈ tbN.idxs, ∀ o ∈ tbO.idxs, o.name = s.name → o ≠ s → ∃ c ∈ o.cols, c ∉ dc) →
+          ∃ R, Abs.Idx.execAll (Abs.Idx.prune dc tbO.idxs) (ss.filterMap idxStmt) = some R ∧ R.Perm tbN.idxs) := by
+  obtain ⟨td, h1, h2, h3, cs, dc, ss, h4, h5, h6, h7, h8, _⟩ :=
+    indexes_with_drops_end_to_end' g hg hio rc old new dbO dbN ho hn heo hen d hd t tbO tbN hfo hfn hne
+  exact ⟨td, h1, h2, h3, cs, dc, ss, h4, h5, h6, h7, h8⟩
 
 end Sqlize
